@@ -114,6 +114,10 @@ func chanRecvOf(info *types.Info, e ast.Expr, field *types.Var) bool {
 }
 
 func runC11(w *World, r *Report) {
+	r.Rule("alive", "the stream goroutines cannot panic on a failed call's nil result or on a short byte slice handed to a helper", 2)
+	streamAliveRule(w, r, "alive")
+	r.Rule("observers", "methods that formatting calls implicitly (String, Error, …) leave the value unchanged", 1)
+	observerRule(w, r, "observers", "util")
 	r.Rule("single-writer", "the writer goroutine is started exactly once per stream and called from nowhere else", 1)
 	r.Rule("conn-uses", "the connection is used only as a method receiver; Write has exactly one call site, in the writer", 5)
 	r.Rule("one-write-per-message", "each iteration of the writer: one receive, one encoding of it, one Write of the unmodified encoding", 1)
@@ -563,4 +567,47 @@ func runC11(w *World, r *Report) {
 		})
 	})
 	r.OK("fifo-source", "util.MessageStream.Outbound", "", w.Pos(so.outboundF.Pos()), fmt.Sprintf("%d assignments to the field outside the constructor literal", nAssign), true)
+}
+
+// streamAliveRule: the stream's goroutines are the connection. One that panics takes the process with it
+// (no recover in the stream), and every message submitted or received afterwards is lost. Two structural
+// conditions of staying alive are decided for package util:
+//   nil result — a value obtained together with an error (the parser's message, an encoder's bytes) is not
+//     used as a receiver, indexed or dereferenced on a path where that error may be set (nilResultRule);
+//   helper bounds — every function of the package that takes a byte slice indexes and slices it in range
+//     for every slice it may be given (the bounds engine of C08 on arbitrary input): what reaches these
+//     helpers is an encoding or a frame of any length, including an empty one after a failed encode.
+func streamAliveRule(w *World, r *Report, rule string) {
+	inUtil := func(fi *FuncInfo) bool { return fi.Pkg.Types.Name() == "util" }
+	nilResultRule(w, r, rule, inUtil)
+	var funcs []*FuncInfo
+	for _, key := range w.sortedFuncKeys() {
+		fi := w.Funcs[key]
+		if fi.Decl.Body == nil || !inUtil(fi) || strings.HasSuffix(w.Fset.Position(fi.Decl.Pos()).Filename, "_test.go") {
+			continue
+		}
+		has := false
+		if fi.Decl.Type.Params != nil {
+			for _, f := range fi.Decl.Type.Params.List {
+				if isByteSlice(fi.Pkg.TypesInfo.TypeOf(f.Type)) {
+					has = true
+				}
+			}
+		}
+		if has {
+			funcs = append(funcs, fi)
+		}
+	}
+	r2 := NewReport(r.Prop, r.Tier)
+	r2.Rule("bounds", "", 0)
+	r2.Rule("wrap", "", 0)
+	r2.Rule("progress", "", 0)
+	r2.Rule("alloc", "", 0)
+	decideTotality(w, r2, funcs, nil)
+	for _, o := range r2.Obs {
+		o.Instance = o.Rule + ":" + o.Instance
+		o.Rule = rule
+		r.Add(o)
+	}
+	r.OK(rule, "inventory", "util", "-", fmt.Sprintf("%d functions of package util take a byte slice; each decided on arbitrary input", len(funcs)), true)
 }
